@@ -41,6 +41,17 @@ func (m *markSerializer) Render(doc interface{}, w io.Writer, _ *native.RenderOp
 	return err
 }
 
+// echoDriver reports the format options it was handed as the name of the document
+type echoDriver struct{}
+
+var echoKey = fmt.Sprintf("%T", &echoDriver{})
+
+func (*echoDriver) Unserialize(_ io.Reader, _ *native.UnserializeOptions, fo interface{}) (*sbom.Document, error) {
+	d := sbom.NewDocument()
+	d.Metadata.Name = fmt.Sprint(fo)
+	return d, nil
+}
+
 // envelopeDriver hands its input to the library's own reader (auto-detection and all)
 type envelopeDriver struct{}
 
@@ -514,6 +525,42 @@ func runStress(op M) any {
 			}(w)
 		}
 		wg.Wait()
+		// independent documents written to different files of ONE directory at the same time, each read back
+		if dir, err := os.MkdirTemp("", "verif-conc-files-"); err == nil {
+			defer os.RemoveAll(dir)
+			for w := 0; w < 8; w++ {
+				wg.Add(1)
+				go func(w int) {
+					defer wg.Done()
+					for i := 0; i < iters/20+2; i++ {
+						guard(v, "WriteFile", func() {
+							k := (i + w) % len(wdocs)
+							f := formats.SPDX23JSON
+							if k%3 == 2 {
+								f = formats.CDX14JSON
+							}
+							path := fmt.Sprintf("%s/doc-%d-%d.json", dir, w, i)
+							if err := writer.New(writer.WithFormat(f), writer.WithRenderOptions(&native.RenderOptions{Indent: 2})).WriteFile(wdocs[k], path); err != nil {
+								if wdig[k] != "err" {
+									v.add("WriteFile next to other WriteFile calls into the same directory fails: %v (alone the document is written: %s)", err, wdig[k])
+								}
+								return
+							}
+							b, err := os.ReadFile(path)
+							if err != nil {
+								v.add("a file written next to others cannot be read: %v", err)
+								return
+							}
+							if dg := "ok:" + outputDigest(b); dg != wdig[k] {
+								v.add("document %d written to its own file next to other writers gives %s, alone %s", k, dg, wdig[k])
+							}
+						})
+					}
+					count(iters/20 + 2)
+				}(w)
+			}
+			wg.Wait()
+		}
 	case "new":
 		// construction with options: every instance has the configuration its own options give; the
 		// option values every construction has in common are created once, as a caller with a slice
@@ -546,6 +593,42 @@ func runStress(op M) any {
 				}
 				count(2 * iters)
 			}(w)
+		}
+		// parses through readers with format options of their own while other goroutines build such
+		// readers: every call returns, and every parse hands the driver its own reader's options
+		{
+			echo := formats.Format("verif/echo-options")
+			reader.RegisterUnserializer(echo, &echoDriver{})
+			var busy sync.WaitGroup
+			for w := 0; w < 8; w++ {
+				busy.Add(1)
+				go func(w int) {
+					defer busy.Done()
+					for i := 0; i < iters/2+1; i++ {
+						guard(v, "parse next to constructions", func() {
+							if w%2 == 0 {
+								_ = reader.New(reader.WithFormatOptions(fmt.Sprintf("k%d", w), i))
+								return
+							}
+							val := fmt.Sprintf("p%d-%d", w, i)
+							rd := reader.New(reader.WithFormatOptions(echoKey, val))
+							d, err := rd.ParseStreamWithOptions(bytes.NewReader([]byte("{}")), &reader.Options{Format: echo})
+							if err != nil || d == nil || d.Metadata.Name != val {
+								v.add("a parse through a reader built with format options %q handed its driver %q (error %v)", val, d.GetMetadata().GetName(), err)
+							}
+						})
+					}
+					count(iters/2 + 1)
+				}(w)
+			}
+			finished := make(chan struct{})
+			go func() { busy.Wait(); close(finished) }()
+			select {
+			case <-finished:
+				reader.UnregisterUnserializer(echo)
+			case <-time.After(60 * time.Second):
+				v.add("parses and reader constructions running side by side do not return: the calls block one another")
+			}
 		}
 		for w := 0; w < 16; w++ {
 			wg.Add(1)
@@ -678,10 +761,13 @@ func concProps(op M) []string {
 }
 
 var ConcStream = &Stream{
-	Name:   "conc",
-	Gen:    concGen,
-	Exec:   ExecConc,
-	Oracle: oracleConc,
+	// scenarios of many calls (child processes, large documents): the watchdog allows for a loaded machine;
+	// a call that blocks is still reported (the children have their own, shorter limits)
+	Timeout: 330 * time.Second,
+	Name:    "conc",
+	Gen:     concGen,
+	Exec:    ExecConc,
+	Oracle:  oracleConc,
 	Canon: func(v any) any {
 		// keep what the oracle needs; the number of calls and timing are not compared
 		n := Normalize(v)
